@@ -14,7 +14,9 @@
      `triplet_accept_isClosed`: the acceptance set is closed for every slack and every (even singular) matrix;
    * linear algebra of two triplets sharing an edge with the third loudspeakers on opposite sides of it, and the
      Lipschitz estimate for normalise-and-clip, used for the quantitative sliver bound in Props/C12.lean. -/
-import Earverif.Proofs.PointSourceReal
+import Earverif.Props.C05
+import Mathlib.Analysis.SpecialFunctions.Pow.Continuity
+import Mathlib.Tactic.IntervalCases
 import Mathlib.Topology.ContinuousOn
 import Mathlib.Topology.MetricSpace.Pseudo.Basic
 import Mathlib.Topology.Algebra.Order.Field
@@ -597,6 +599,896 @@ theorem triplet_sliver_bound (P : Mat3 ℝ) (hd : det3 P ≠ 0) (α β γ : ℝ)
   refine ⟨m0, m1, ?_, ?_⟩
   · rw [sub_zero, abs_of_nonneg n2]; exact m2
   · rw [zero_sub, abs_neg, abs_of_nonneg n3]; exact m3
+
+
+/-! ## Region-level material (moved here from Props/C12.lean so that Proofs/C12Ngon.lean and Proofs/C12Faces.lean can use it):
+    uniqueness/agreement on edges, the quad and n-gon on their edges, piecewise continuity, closedness of the acceptance sets,
+    `MeetInSharedFace`, `shared_face_agreement`, the all-triplet panner at slack 0. -/
+
+/-! ### uniqueness of the gains on an edge -/
+
+/-- the point `s·a + t·b` on the arc between loudspeakers `a` and `b` -/
+noncomputable def edgePoint (s t : ℝ) (a b : Vec3 ℝ) : Vec3 ℝ := add3 (smul3 s a) (smul3 t b)
+
+theorem cross_edge (α β s t : ℝ) (a b : Vec3 ℝ) :
+    cross3 (edgePoint α β a b) (edgePoint s t a b) = smul3 (α * t - β * s) (cross3 a b) := by
+  obtain ⟨a0, a1, a2⟩ := a
+  obtain ⟨b0, b1, b2⟩ := b
+  simp only [edgePoint, cross3, add3, smul3]
+  refine Prod.ext ?_ (Prod.ext ?_ ?_) <;> simp only <;> ring
+
+theorem smul3_eq_zero {k : ℝ} {v : Vec3 ℝ} (h : smul3 k v = (0, 0, 0)) (hv : v ≠ (0, 0, 0)) : k = 0 := by
+  obtain ⟨v0, v1, v2⟩ := v
+  simp only [smul3, Prod.mk.injEq] at h
+  by_contra hk
+  apply hv
+  rcases h with ⟨h0, h1, h2⟩
+  rw [(mul_eq_zero.mp h0).resolve_left hk, (mul_eq_zero.mp h1).resolve_left hk, (mul_eq_zero.mp h2).resolve_left hk]
+
+/-- For independent `a`, `b` and a direction in their open cone there is at most one pair of non-negative gains
+    of unit power whose velocity vector `α·a + β·b` is parallel to the direction. -/
+theorem edge_unique (a b : Vec3 ℝ) (hab : cross3 a b ≠ (0, 0, 0)) (s t : ℝ) (hs : 0 < s) (ht : 0 < t)
+    (α β α' β' : ℝ) (hα : 0 ≤ α) (hβ : 0 ≤ β) (hα' : 0 ≤ α') (hβ' : 0 ≤ β')
+    (h1 : α * α + β * β = 1) (h1' : α' * α' + β' * β' = 1)
+    (hp : cross3 (edgePoint α β a b) (edgePoint s t a b) = (0, 0, 0))
+    (hp' : cross3 (edgePoint α' β' a b) (edgePoint s t a b) = (0, 0, 0)) :
+    α = α' ∧ β = β' := by
+  rw [cross_edge] at hp hp'
+  have e := smul3_eq_zero hp hab
+  have e' := smul3_eq_zero hp' hab
+  have hst : 0 < s * t := mul_pos hs ht
+  have hpar : α * β' = α' * β := by
+    have : s * t * (α * β' - α' * β) = 0 := by
+      have h3 : α * t = β * s := by linarith
+      have h4 : α' * t = β' * s := by linarith
+      calc s * t * (α * β' - α' * β) = (α * t) * (β' * s) - (α' * t) * (β * s) := by ring
+        _ = (β * s) * (α' * t) - (α' * t) * (β * s) := by rw [h3, ← h4]
+        _ = 0 := by ring
+    rcases mul_eq_zero.mp this with h | h
+    · exact absurd h hst.ne'
+    · linarith
+  have hαα : α * α = α' * α' := by
+    calc α * α = α * α * (α' * α' + β' * β') := by rw [h1', mul_one]
+      _ = α * α * (α' * α') + (α * β') * (α * β') := by ring
+      _ = α * α * (α' * α') + (α' * β) * (α' * β) := by rw [hpar]
+      _ = α' * α' * (α * α + β * β) := by ring
+      _ = α' * α' := by rw [h1, mul_one]
+  have hββ : β * β = β' * β' := by linarith
+  exact ⟨(mul_self_inj hα hα').mp hαα, (mul_self_inj hβ hβ').mp hββ⟩
+
+/-- ... and `(s, t)/‖(s, t)‖` is such a pair. -/
+theorem edge_exists (a b : Vec3 ℝ) (s t : ℝ) (hs : 0 < s) (ht : 0 < t) :
+    let r := Real.sqrt (s * s + t * t)
+    0 ≤ s / r ∧ 0 ≤ t / r ∧ s / r * (s / r) + t / r * (t / r) = 1 ∧
+      cross3 (edgePoint (s / r) (t / r) a b) (edgePoint s t a b) = (0, 0, 0) := by
+  intro r
+  have hpos : 0 < s * s + t * t := by positivity
+  have hr : 0 < r := Real.sqrt_pos.mpr hpos
+  have hrr : r * r = s * s + t * t := Real.mul_self_sqrt hpos.le
+  refine ⟨by positivity, by positivity, ?_, ?_⟩
+  · field_simp
+    have : r ^ 2 = s ^ 2 + t ^ 2 := by rw [pow_two, hrr]; ring
+    linarith
+  · rw [cross_edge]
+    have : s / r * t - t / r * s = 0 := by field_simp; ring
+    rw [this]; simp [smul3]
+
+/-! ### a triplet on one of its edges -/
+
+def row (P : Mat3 ℝ) : Fin 3 → Vec3 ℝ
+  | 0 => P.1
+  | 1 => P.2.1
+  | 2 => P.2.2
+
+def coord (v : Vec3 ℝ) : Fin 3 → ℝ
+  | 0 => v.1
+  | 1 => v.2.1
+  | 2 => v.2.2
+
+theorem comb3_edge (P : Mat3 ℝ) (s t : ℝ) :
+    edgePoint s t (row P 0) (row P 1) = comb3 s t 0 P ∧ edgePoint s t (row P 1) (row P 0) = comb3 t s 0 P ∧
+    edgePoint s t (row P 0) (row P 2) = comb3 s 0 t P ∧ edgePoint s t (row P 2) (row P 0) = comb3 t 0 s P ∧
+    edgePoint s t (row P 1) (row P 2) = comb3 0 s t P ∧ edgePoint s t (row P 2) (row P 1) = comb3 0 t s P := by
+  obtain ⟨⟨a0, a1, a2⟩, ⟨b0, b1, b2⟩, ⟨c0, c1, c2⟩⟩ := P
+  simp only [edgePoint, comb3, add3, smul3, row]
+  refine ⟨?_, ?_, ?_, ?_, ?_, ?_⟩ <;> refine Prod.ext ?_ (Prod.ext ?_ ?_) <;> simp only <;> ring
+
+/-- An invertible triplet with loudspeakers `i ≠ j`: every direction `s·P_i + t·P_j` (s, t ≥ 0, not both 0) is
+    accepted and gets the gains `s/√(s²+t²)` on `i`, `t/√(s²+t²)` on `j` and exactly 0 on the third loudspeaker. -/
+theorem triplet_on_edge (P : Mat3 ℝ) (hd : det3 P ≠ 0) (i j : Fin 3) (hij : i ≠ j) (s t : ℝ) (hs : 0 ≤ s)
+    (ht : 0 ≤ t) (hne : s * s + t * t ≠ 0) :
+    ∃ g, Triplet.handle P (edgePoint s t (row P i) (row P j)) = some g ∧
+      coord g i = s / Real.sqrt (s * s + t * t) ∧ coord g j = t / Real.sqrt (s * s + t * t) ∧
+      ∀ k, k ≠ i → k ≠ j → coord g k = 0 := by
+  obtain ⟨e01, e10, e02, e20, e12, e21⟩ := comb3_edge P s t
+  have z : (0 : ℝ) ≤ 0 := le_refl _
+  fin_cases i <;> fin_cases j <;> simp only [ne_eq, not_true_eq_false, Fin.zero_eta, Fin.mk_one, Fin.reduceFinMk] at hij ⊢
+  · have h := triplet_of_comb P hd s t 0 hs ht z (by simpa using hne)
+    rw [e01, h]
+    refine ⟨_, rfl, by simp [coord], by simp [coord], ?_⟩
+    intro k hk0 hk1; fin_cases k <;> simp_all [coord]
+  · have h := triplet_of_comb P hd s 0 t hs z ht (by simpa using hne)
+    rw [e02, h]
+    refine ⟨_, rfl, by simp [coord], by simp [coord], ?_⟩
+    intro k hk0 hk1; fin_cases k <;> simp_all [coord]
+  · have h := triplet_of_comb P hd t s 0 ht hs z (by simpa [add_comm] using hne)
+    rw [e10, h]
+    refine ⟨_, rfl, by simp [coord, add_comm], by simp [coord, add_comm], ?_⟩
+    intro k hk0 hk1; fin_cases k <;> simp_all [coord]
+  · have h := triplet_of_comb P hd 0 s t z hs ht (by simpa using hne)
+    rw [e12, h]
+    refine ⟨_, rfl, by simp [coord], by simp [coord], ?_⟩
+    intro k hk0 hk1; fin_cases k <;> simp_all [coord]
+  · have h := triplet_of_comb P hd t 0 s ht z hs (by simpa [add_comm] using hne)
+    rw [e20, h]
+    refine ⟨_, rfl, by simp [coord, add_comm], by simp [coord, add_comm], ?_⟩
+    intro k hk0 hk1; fin_cases k <;> simp_all [coord]
+  · have h := triplet_of_comb P hd 0 t s z ht hs (by simpa [add_comm] using hne)
+    rw [e21, h]
+    refine ⟨_, rfl, by simp [coord, add_comm], by simp [coord, add_comm], ?_⟩
+    intro k hk0 hk1; fin_cases k <;> simp_all [coord]
+
+/-- Two invertible triplets sharing the edge `a b` (at any row positions) both accept every direction of that
+    edge and return the same gain for `a`, the same gain for `b`, and 0 for their respective third loudspeaker:
+    crossing from one triplet into the other never changes the gains. -/
+theorem edge_agreement (P Q : Mat3 ℝ) (hP : det3 P ≠ 0) (hQ : det3 Q ≠ 0) (i j i' j' : Fin 3) (hij : i ≠ j)
+    (hij' : i' ≠ j') (ha : row P i = row Q i') (hb : row P j = row Q j') (s t : ℝ) (hs : 0 ≤ s) (ht : 0 ≤ t)
+    (hne : s * s + t * t ≠ 0) :
+    ∃ g g', Triplet.handle P (edgePoint s t (row P i) (row P j)) = some g ∧
+      Triplet.handle Q (edgePoint s t (row P i) (row P j)) = some g' ∧
+      coord g i = coord g' i' ∧ coord g j = coord g' j' ∧
+      (∀ k, k ≠ i → k ≠ j → coord g k = 0) ∧ (∀ k, k ≠ i' → k ≠ j' → coord g' k = 0) := by
+  obtain ⟨g, hg, gi, gj, gk⟩ := triplet_on_edge P hP i j hij s t hs ht hne
+  obtain ⟨g', hg', gi', gj', gk'⟩ := triplet_on_edge Q hQ i' j' hij' s t hs ht hne
+  rw [← ha, ← hb] at hg'
+  exact ⟨g, g', hg, hg', by rw [gi, gi'], by rw [gj, gj'], gk, gk'⟩
+
+/-! ### the bilinear quad on its edges (given the roots) -/
+
+/-- `QuadRegion.handle` in closed form: the bilinear weights divided by their norm, scattered by `order`. -/
+theorem quad_out_eq (q : QuadRegion ℝ) (p : Vec3 ℝ) (x y : ℝ) (out : List ℝ) (ho : isPermOfRange q.order 4 = true)
+    (h : q.handle (some x) (some y) p = some out) :
+    out = scatter (zeros 4) q.order ((QuadRegion.weights x y).map (· / Real.sqrt (sumsq (QuadRegion.weights x y)))) := by
+  simp only [QuadRegion.handle] at h
+  split at h
+  · simp at h
+  · simp only [Option.some.injEq] at h
+    subst h
+    unfold normalise norm
+    have hs : sumsq (scatter (zeros 4) q.order (QuadRegion.weights x y)) = sumsq (QuadRegion.weights x y) := by
+      simp only [QuadRegion.weights]
+      rw [scatter4_sumsq ho]; simp [sumsq]; ring
+    rw [hs, sqrt_real]
+    generalize Real.sqrt (sumsq (QuadRegion.weights x y)) = m
+    have hm := perm4_mem ho
+    generalize q.order = o at hm ⊢
+    simp only [List.mem_cons, List.mem_nil_iff, or_false] at hm
+    rcases hm with rfl | rfl | rfl | rfl | rfl | rfl | rfl | rfl | rfl | rfl | rfl | rfl | rfl | rfl | rfl | rfl
+        | rfl | rfl | rfl | rfl | rfl | rfl | rfl | rfl <;>
+      simp [scatter, zeros, QuadRegion.weights, List.replicate]
+
+/-- corner number `k` of the ordered quad (the `a, b, c, d` of `pan_axis`) -/
+noncomputable def QuadRegion.corner (q : QuadRegion ℝ) (k : Nat) : Vec3 ℝ :=
+  q.positions.getD (q.order.getD k 0) zero3
+
+/-- On each of its four edges (one pan value 0 or 1) a quad gives `(1-w, w)/‖(1-w, w)‖` to the edge's two corners
+    and exactly 0 to the other two. Corner order: 0-1 (y=0), 1-2 (x=1), 3-2 (y=1), 0-3 (x=0). -/
+theorem quad_on_edge (q : QuadRegion ℝ) (p : Vec3 ℝ) (w : ℝ) (out : List ℝ) (ho : isPermOfRange q.order 4 = true) :
+    let n := Real.sqrt ((1 - w) * (1 - w) + w * w)
+    (q.handle (some w) (some 0) p = some out → out = scatter (zeros 4) q.order [(1 - w) / n, w / n, 0, 0]) ∧
+    (q.handle (some 1) (some w) p = some out → out = scatter (zeros 4) q.order [0, (1 - w) / n, w / n, 0]) ∧
+    (q.handle (some w) (some 1) p = some out → out = scatter (zeros 4) q.order [0, 0, w / n, (1 - w) / n]) ∧
+    (q.handle (some 0) (some w) p = some out → out = scatter (zeros 4) q.order [(1 - w) / n, 0, 0, w / n]) := by
+  intro n
+  refine ⟨fun h => ?_, fun h => ?_, fun h => ?_, fun h => ?_⟩
+  · rw [quad_out_eq q p w 0 out ho h]
+    have : sumsq (QuadRegion.weights w (0 : ℝ)) = (1 - w) * (1 - w) + w * w := by simp [QuadRegion.weights, sumsq]
+    rw [this]; simp [QuadRegion.weights, n]
+  · rw [quad_out_eq q p 1 w out ho h]
+    have : sumsq (QuadRegion.weights (1 : ℝ) w) = (1 - w) * (1 - w) + w * w := by simp [QuadRegion.weights, sumsq]
+    rw [this]; simp [QuadRegion.weights, n]
+  · rw [quad_out_eq q p w 1 out ho h]
+    have : sumsq (QuadRegion.weights w (1 : ℝ)) = (1 - w) * (1 - w) + w * w := by
+      simp [QuadRegion.weights, sumsq]; ring
+    rw [this]; simp [QuadRegion.weights, n]
+  · rw [quad_out_eq q p 0 w out ho h]
+    have : sumsq (QuadRegion.weights (0 : ℝ) w) = (1 - w) * (1 - w) + w * w := by simp [QuadRegion.weights, sumsq]
+    rw [this]; simp [QuadRegion.weights, n]
+
+/-- A non-negative pair whose velocity vector is parallel to a direction of the open cone of `a`, `b` is, after
+    normalisation, the VBAP pair of that direction. -/
+theorem pair_agree (a b : Vec3 ℝ) (hab : cross3 a b ≠ (0, 0, 0)) (s t u v : ℝ) (hs : 0 < s) (ht : 0 < t)
+    (hu : 0 ≤ u) (hv : 0 ≤ v) (huv : 0 < u * u + v * v)
+    (hcol : cross3 (edgePoint u v a b) (edgePoint s t a b) = (0, 0, 0)) :
+    u / Real.sqrt (u * u + v * v) = s / Real.sqrt (s * s + t * t) ∧
+      v / Real.sqrt (u * u + v * v) = t / Real.sqrt (s * s + t * t) := by
+  set m := Real.sqrt (u * u + v * v) with hm
+  have hmpos : 0 < m := Real.sqrt_pos.mpr huv
+  have hmm : m * m = u * u + v * v := Real.mul_self_sqrt huv.le
+  rw [cross_edge] at hcol
+  have hk := smul3_eq_zero hcol hab
+  obtain ⟨e1, e2, e3, e4⟩ := edge_exists a b s t hs ht
+  exact edge_unique a b hab s t hs ht (u / m) (v / m) _ _
+    (div_nonneg hu hmpos.le) (div_nonneg hv hmpos.le) e1 e2 (by field_simp; nlinarith [hmm]) e3
+    (by
+      rw [cross_edge]
+      have : u / m * t - v / m * s = (u * t - v * s) / m := by field_simp
+      rw [this, hk]; simp [smul3])
+    e4
+
+/-- Agreement of the bilinear quad with VBAP on a shared edge (stated for the edge between corners 0 and 1,
+    `y = 0`): if the direction lies in the open cone of the two corners and the quad's velocity vector
+    `(1-x)·a + x·b` is parallel to the direction (which is what the selected root `x` stands for — the root selection
+    of np.roots is a parameter of the model), then the quad returns exactly the pair `(s, t)/‖(s, t)‖` on those two
+    corners — the pair every invertible triplet with the same edge returns (`triplet_on_edge`) — and 0 elsewhere. -/
+theorem quad_edge_agreement (q : QuadRegion ℝ) (x s t : ℝ) (out : List ℝ) (ho : isPermOfRange q.order 4 = true)
+    (hx0 : 0 ≤ x) (hx1 : x ≤ 1) (hs : 0 < s) (ht : 0 < t) (hab : cross3 (q.corner 0) (q.corner 1) ≠ (0, 0, 0))
+    (hcol : cross3 (edgePoint (1 - x) x (q.corner 0) (q.corner 1)) (edgePoint s t (q.corner 0) (q.corner 1)) = (0, 0, 0))
+    (h : q.handle (some x) (some 0) (edgePoint s t (q.corner 0) (q.corner 1)) = some out) :
+    out = scatter (zeros 4) q.order [s / Real.sqrt (s * s + t * t), t / Real.sqrt (s * s + t * t), 0, 0] := by
+  rw [(quad_on_edge q _ x out ho).1 h]
+  have hpos : 0 < (1 - x) * (1 - x) + x * x := by nlinarith [mul_self_nonneg (1 - x), mul_self_nonneg x]
+  obtain ⟨h1, h2⟩ := pair_agree _ _ hab s t (1 - x) x hs ht (by linarith) hx0 hpos hcol
+  simp only [h1, h2]
+
+/-- The same on the other three edges: corners 1-2 (`x = 1`), 3-2 (`y = 1`), 0-3 (`x = 0`). -/
+theorem quad_edge_agreement' (q : QuadRegion ℝ) (w s t : ℝ) (out : List ℝ) (ho : isPermOfRange q.order 4 = true)
+    (hw0 : 0 ≤ w) (hw1 : w ≤ 1) (hs : 0 < s) (ht : 0 < t) :
+    (cross3 (q.corner 1) (q.corner 2) ≠ (0, 0, 0) →
+      cross3 (edgePoint (1 - w) w (q.corner 1) (q.corner 2)) (edgePoint s t (q.corner 1) (q.corner 2)) = (0, 0, 0) →
+      q.handle (some 1) (some w) (edgePoint s t (q.corner 1) (q.corner 2)) = some out →
+      out = scatter (zeros 4) q.order [0, s / Real.sqrt (s * s + t * t), t / Real.sqrt (s * s + t * t), 0]) ∧
+    (cross3 (q.corner 3) (q.corner 2) ≠ (0, 0, 0) →
+      cross3 (edgePoint (1 - w) w (q.corner 3) (q.corner 2)) (edgePoint s t (q.corner 3) (q.corner 2)) = (0, 0, 0) →
+      q.handle (some w) (some 1) (edgePoint s t (q.corner 3) (q.corner 2)) = some out →
+      out = scatter (zeros 4) q.order [0, 0, t / Real.sqrt (s * s + t * t), s / Real.sqrt (s * s + t * t)]) ∧
+    (cross3 (q.corner 0) (q.corner 3) ≠ (0, 0, 0) →
+      cross3 (edgePoint (1 - w) w (q.corner 0) (q.corner 3)) (edgePoint s t (q.corner 0) (q.corner 3)) = (0, 0, 0) →
+      q.handle (some 0) (some w) (edgePoint s t (q.corner 0) (q.corner 3)) = some out →
+      out = scatter (zeros 4) q.order [s / Real.sqrt (s * s + t * t), 0, 0, t / Real.sqrt (s * s + t * t)]) := by
+  have hpos : 0 < (1 - w) * (1 - w) + w * w := by nlinarith [mul_self_nonneg (1 - w), mul_self_nonneg w]
+  refine ⟨fun hab hcol h => ?_, fun hab hcol h => ?_, fun hab hcol h => ?_⟩
+  · rw [(quad_on_edge q _ w out ho).2.1 h]
+    obtain ⟨h1, h2⟩ := pair_agree _ _ hab s t (1 - w) w hs ht (by linarith) hw0 hpos hcol
+    simp only [h1, h2]
+  · rw [(quad_on_edge q _ w out ho).2.2.1 h]
+    obtain ⟨h1, h2⟩ := pair_agree _ _ hab s t (1 - w) w hs ht (by linarith) hw0 hpos hcol
+    simp only [h1, h2]
+  · rw [(quad_on_edge q _ w out ho).2.2.2 h]
+    obtain ⟨h1, h2⟩ := pair_agree _ _ hab s t (1 - w) w hs ht (by linarith) hw0 hpos hcol
+    simp only [h1, h2]
+
+/-! ### the virtual n-gon on its outer edges -/
+
+theorem sumsq_replicate_zero (n : Nat) : sumsq (List.replicate n (0 : ℝ)) = 0 := by
+  induction n with
+  | zero => simp [sumsq]
+  | succ k ih => simp [List.replicate_succ, sumsq, ih]
+
+theorem sumsq_set : ∀ (l : List ℝ) (i : Nat) (x : ℝ), i < l.length →
+    sumsq (l.set i x) = sumsq l - l.getD i 0 * l.getD i 0 + x * x
+  | [], i, x, h => by simp at h
+  | y :: ys, 0, x, _ => by simp [sumsq]; ring
+  | y :: ys, i + 1, x, h => by
+    have := sumsq_set ys i x (by simpa using h)
+    simp only [List.set_cons_succ, sumsq, this, List.getD_cons_succ]
+    ring
+
+theorem zipWith_add_zero : ∀ (v cd : List ℝ), v.length ≤ cd.length →
+    List.zipWith (fun x d => x + 0 * d) v cd = v
+  | [], _, _ => by simp
+  | x :: xs, [], h => by simp at h
+  | x :: xs, d :: ds, h => by
+    simp only [List.zipWith_cons_cons, zero_mul, add_zero, List.cons.injEq, true_and]
+    have := zipWith_add_zero xs ds (by simpa using h)
+    simpa using this
+
+/-- the candidate answer of one inner triplet `r` of a virtual n-gon -/
+noncomputable def VirtualNgon.candidate (g : VirtualNgon ℝ) (r : List Nat × Mat3 ℝ) (p : Vec3 ℝ) : Option (List ℝ) :=
+  (remap r.1 (g.centreDownmix.length + 1) ((Triplet.handle r.2 p).map vecList)).map (VirtualNgon.mix g.centreDownmix)
+
+theorem ngon_handle_eq (g : VirtualNgon ℝ) (p : Vec3 ℝ) :
+    g.handle p = firstAccept (g.regions.map fun r => g.candidate r p) := rfl
+
+/-- On the outer edge between two consecutive vertices `oi`, `oj` of a virtual n-gon, the inner triplet
+    `(oi, oj, centre)` answers with exactly the VBAP pair `(s, t)/‖(s, t)‖` on `oi`, `oj` and 0 on every other
+    loudspeaker: nothing is sent to the virtual centre, so the centre downmix and the renormalisation change
+    nothing. -/
+theorem ngon_candidate_on_edge (g : VirtualNgon ℝ) (oi oj : Nat) (P : Mat3 ℝ) (hd : det3 P ≠ 0)
+    (hij : oi ≠ oj) (hi : oi < g.centreDownmix.length) (hj : oj < g.centreDownmix.length)
+    (s t : ℝ) (hs : 0 ≤ s) (ht : 0 ≤ t) (hne : s * s + t * t ≠ 0) :
+    g.candidate ([oi, oj, g.centreDownmix.length], P) (edgePoint s t P.1 P.2.1) =
+      some (((zeros g.centreDownmix.length).set oi (s / Real.sqrt (s * s + t * t))).set oj
+        (t / Real.sqrt (s * s + t * t))) := by
+  set n := g.centreDownmix.length with hn
+  set r := Real.sqrt (s * s + t * t) with hr
+  have hpos : 0 < s * s + t * t := lt_of_le_of_ne (by nlinarith [mul_self_nonneg s, mul_self_nonneg t]) (Ne.symm hne)
+  have hrpos : 0 < r := Real.sqrt_pos.mpr hpos
+  have hrr : r * r = s * s + t * t := Real.mul_self_sqrt hpos.le
+  have hp : edgePoint s t P.1 P.2.1 = comb3 s t 0 P := (comb3_edge P s t).1
+  have hh := triplet_of_comb P hd s t 0 hs ht (le_refl _) (by simpa using hne)
+  simp only [mul_zero, add_zero] at hh
+  unfold VirtualNgon.candidate
+  simp only [hp, hh, Option.map_some, remap, vecList, scatter, zero_div]
+  congr 1
+  unfold VirtualNgon.mix
+  simp only [← hn]
+  have hlen : ∀ (l : List ℝ) a b c, (((l.set oi a).set oj b).set n c).length = l.length := by simp
+  have hlast : ((((zeros (n + 1) : List ℝ).set oi (s / r)).set oj (t / r)).set n 0).getD n zero = 0 := by
+    simp [zeros, List.getD_eq_getElem?_getD]
+  rw [hlast]
+  have htake : ((((zeros (n + 1) : List ℝ).set oi (s / r)).set oj (t / r)).set n 0).take n
+      = ((zeros n : List ℝ).set oi (s / r)).set oj (t / r) := by
+    simp only [List.take_set, zeros, List.take_replicate]
+    have : min n (n + 1) = n := by omega
+    rw [this]
+    apply List.set_eq_of_length_le; simp
+  rw [htake, zipWith_add_zero _ _ (by simp [zeros, hn])]
+  have hss : sumsq (((zeros n : List ℝ).set oi (s / r)).set oj (t / r)) = 1 := by
+    rw [sumsq_set _ _ _ (by simp [zeros]; exact hj), sumsq_set _ _ _ (by simp [zeros]; exact hi)]
+    have h0 : ((zeros n : List ℝ).set oi (s / r)).getD oj 0 = 0 := by
+      simp [zeros, List.getD_eq_getElem?_getD, hij, hj]
+    have h1 : (zeros n : List ℝ).getD oi 0 = 0 := by simp [zeros, List.getD_eq_getElem?_getD, hi]
+    rw [h0, h1]
+    simp only [zeros, zero_real, sumsq_replicate_zero]
+    field_simp
+    nlinarith [hrr]
+  unfold normalise norm
+  rw [hss, sqrt_real, Real.sqrt_one]
+  simp
+
+theorem firstAccept_skip {γ : Type} : ∀ (pre : List (Option γ)) (rest : List (Option γ)),
+    (∀ r ∈ pre, r = none) → firstAccept (pre ++ rest) = firstAccept rest
+  | [], _, _ => rfl
+  | x :: xs, rest, h => by
+    have hx : x = none := h x (by simp)
+    subst hx
+    simp only [List.cons_append, firstAccept]
+    exact firstAccept_skip xs rest (fun r hr => h r (by simp [hr]))
+
+/-- n-gon version of edge agreement: if the inner triplets tried before `(oi, oj, centre)` reject the direction,
+    the virtual n-gon returns on its outer edge `oi`-`oj` exactly the pair `(s, t)/‖(s, t)‖` that every invertible
+    triplet with the same edge returns (`triplet_on_edge`), and 0 on its other loudspeakers.  (Without the hypothesis
+    on the earlier triplets the statement is false in exact arithmetic: within 1e-11 of a vertex a neighbouring inner
+    triplet may accept first and differ by O(1e-11) — the acceptance slack; that is searched, not proved.) -/
+theorem ngon_on_edge (g : VirtualNgon ℝ) (oi oj : Nat) (P : Mat3 ℝ) (pre post : List (List Nat × Mat3 ℝ))
+    (hreg : g.regions = pre ++ ([oi, oj, g.centreDownmix.length], P) :: post) (hd : det3 P ≠ 0)
+    (hij : oi ≠ oj) (hi : oi < g.centreDownmix.length) (hj : oj < g.centreDownmix.length)
+    (s t : ℝ) (hs : 0 ≤ s) (ht : 0 ≤ t) (hne : s * s + t * t ≠ 0)
+    (hpre : ∀ r ∈ pre, g.candidate r (edgePoint s t P.1 P.2.1) = none) :
+    g.handle (edgePoint s t P.1 P.2.1) =
+      some (((zeros g.centreDownmix.length).set oi (s / Real.sqrt (s * s + t * t))).set oj
+        (t / Real.sqrt (s * s + t * t))) := by
+  rw [ngon_handle_eq, hreg, List.map_append, firstAccept_skip _ _ (by
+    intro r hr
+    obtain ⟨r', hr', rfl⟩ := List.mem_map.mp hr
+    exact hpre r' hr')]
+  simp only [List.map_cons, ngon_candidate_on_edge g oi oj P hd hij hi hj s t hs ht hne, firstAccept]
+
+/-! ### why edge agreement cannot extend to global continuity: a non-planar quad is two-valued
+
+    Kernel-checked counter-example inside the model.  For a non-planar quad the ray of a direction can meet the bilinear
+    surface twice inside the patch: both quadratics of `pan_axis` then have two roots in [0, 1], both root pairs pass the
+    acceptance test of `QuadRegion.handle`, and the two answers differ.  The real code takes "the first root in range"
+    in the order np.roots returns them, so which answer is given can change between neighbouring directions
+    (known finding `quad-two-in-range-roots`, reproduced on the real code by harness/c12.py). -/
+
+/-- a non-planar ("twisted") quad with rational corners: z alternates 1, -1/2, 1, -1/2 around the square -/
+noncomputable def twistedQuad : QuadRegion ℝ :=
+  ⟨[(-1/2, -1/2, 1), (1/2, -1/2, -1/2), (1/2, 1/2, 1), (-1/2, 1/2, -1/2)], [0, 1, 2, 3]⟩
+
+/-- ... and a direction whose ray meets the quad's bilinear surface twice -/
+noncomputable def twistedDir : Vec3 ℝ := (1, 1, 7/4)
+
+theorem quad_two_valued_witness :
+    -- both pan_axis quadratics at this direction are genuine quadratics with the two roots 3/4 and 5/6, both inside [0, 1]
+    (let P := (twistedQuad.polys twistedDir).1
+     P.1 ≠ 0 ∧ P.1 * (3/4) ^ 2 + P.2.1 * (3/4) + P.2.2 = 0 ∧ P.1 * (5/6) ^ 2 + P.2.1 * (5/6) + P.2.2 = 0) ∧
+    (let P := (twistedQuad.polys twistedDir).2
+     P.1 ≠ 0 ∧ P.1 * (3/4) ^ 2 + P.2.1 * (3/4) + P.2.2 = 0 ∧ P.1 * (5/6) ^ 2 + P.2.1 * (5/6) + P.2.2 = 0) ∧
+    -- both root pairs give bilinear weights whose velocity vector is a POSITIVE multiple of the direction
+    comb (QuadRegion.weights (3/4 : ℝ) (3/4)) twistedQuad.positions = smul3 (1/4) twistedDir ∧
+    comb (QuadRegion.weights (5/6 : ℝ) (5/6)) twistedQuad.positions = smul3 (1/3) twistedDir ∧
+    -- so `QuadRegion.handle` accepts the direction with either pair, and the two answers differ
+    ∃ g1 g2, twistedQuad.handle (some (3/4)) (some (3/4)) twistedDir = some g1 ∧
+      twistedQuad.handle (some (5/6)) (some (5/6)) twistedDir = some g2 ∧
+      g1.getD 2 0 = 9 * g1.getD 0 0 ∧ g2.getD 2 0 = 25 * g2.getD 0 0 ∧ 0 < g1.getD 0 0 ∧ 0 < g2.getD 0 0 ∧ g1 ≠ g2 := by
+  refine ⟨?_, ?_, ?_, ?_, ?_⟩
+  · simp only [QuadRegion.polys, QuadRegion.panPoly, twistedQuad, twistedDir, List.getD_cons_zero, List.getD_cons_succ,
+      dot3, cross3, sub3, add3]
+    norm_num
+  · simp only [QuadRegion.polys, QuadRegion.panPoly, twistedQuad, twistedDir, List.getD_cons_zero, List.getD_cons_succ,
+      dot3, cross3, sub3, add3]
+    norm_num
+  · simp only [comb, QuadRegion.weights, twistedQuad, twistedDir, add3, smul3, zero3, one_real, zero_real]
+    norm_num
+  · simp only [comb, QuadRegion.weights, twistedQuad, twistedDir, add3, smul3, zero3, one_real, zero_real]
+    norm_num
+  · have hs1 : scatter (zeros 4) twistedQuad.order (QuadRegion.weights (3/4 : ℝ) (3/4)) = [1/16, 3/16, 9/16, 3/16] := by
+      simp only [twistedQuad, scatter, zeros, QuadRegion.weights, one_real, zero_real, List.replicate, List.set]
+      norm_num
+    have hs2 : scatter (zeros 4) twistedQuad.order (QuadRegion.weights (5/6 : ℝ) (5/6)) = [1/36, 5/36, 25/36, 5/36] := by
+      simp only [twistedQuad, scatter, zeros, QuadRegion.weights, one_real, zero_real, List.replicate, List.set]
+      norm_num
+    have ha1 : ¬ dot3 (comb ([1/16, 3/16, 9/16, 3/16] : List ℝ) twistedQuad.positions) twistedDir ≤ zero := by
+      simp only [comb, twistedQuad, twistedDir, add3, smul3, zero3, dot3, zero_real]
+      norm_num
+    have ha2 : ¬ dot3 (comb ([1/36, 5/36, 25/36, 5/36] : List ℝ) twistedQuad.positions) twistedDir ≤ zero := by
+      simp only [comb, twistedQuad, twistedDir, add3, smul3, zero3, dot3, zero_real]
+      norm_num
+    have hn1 : 0 < norm ([1/16, 3/16, 9/16, 3/16] : List ℝ) := by
+      simp only [norm, sqrt_real, sumsq, zero_real]; apply Real.sqrt_pos.mpr; norm_num
+    have hn2 : 0 < norm ([1/36, 5/36, 25/36, 5/36] : List ℝ) := by
+      simp only [norm, sqrt_real, sumsq, zero_real]; apply Real.sqrt_pos.mpr; norm_num
+    refine ⟨normalise [1/16, 3/16, 9/16, 3/16], normalise [1/36, 5/36, 25/36, 5/36], ?_, ?_, ?_, ?_, ?_, ?_, ?_⟩
+    · simp only [QuadRegion.handle, hs1, if_neg ha1]
+    · simp only [QuadRegion.handle, hs2, if_neg ha2]
+    · simp only [normalise, List.map_cons, List.map_nil, List.getD_cons_zero, List.getD_cons_succ]; ring
+    · simp only [normalise, List.map_cons, List.map_nil, List.getD_cons_zero, List.getD_cons_succ]; ring
+    · simp only [normalise, List.map_cons, List.getD_cons_zero]; positivity
+    · simp only [normalise, List.map_cons, List.getD_cons_zero]; positivity
+    · intro h
+      have h0 : (normalise ([1/16, 3/16, 9/16, 3/16] : List ℝ)).getD 0 0 = (normalise ([1/36, 5/36, 25/36, 5/36] : List ℝ)).getD 0 0 := by rw [h]
+      have h2 : (normalise ([1/16, 3/16, 9/16, 3/16] : List ℝ)).getD 2 0 = (normalise ([1/36, 5/36, 25/36, 5/36] : List ℝ)).getD 2 0 := by rw [h]
+      simp only [normalise, List.map_cons, List.map_nil, List.getD_cons_zero, List.getD_cons_succ] at h0 h2
+      have p1 : (0 : ℝ) < 1 / 16 / norm ([1/16, 3/16, 9/16, 3/16] : List ℝ) := by positivity
+      have e1 : (9 / 16 : ℝ) / norm ([1/16, 3/16, 9/16, 3/16] : List ℝ) = 9 * (1 / 16 / norm ([1/16, 3/16, 9/16, 3/16] : List ℝ)) := by ring
+      have e2 : (25 / 36 : ℝ) / norm ([1/36, 5/36, 25/36, 5/36] : List ℝ) = 25 * (1 / 36 / norm ([1/36, 5/36, 25/36, 5/36] : List ℝ)) := by ring
+      rw [e1, e2, ← h0] at h2
+      linarith
+
+/-! ### piecewise continuity -/
+
+theorem continuous_clip01 : Continuous (clip01 : ℝ → ℝ) := by
+  have : (clip01 : ℝ → ℝ) = fun x => min (max x 0) 1 := by
+    funext x; simp [clip01]
+  rw [this]
+  exact (continuous_id.max continuous_const).min continuous_const
+
+theorem continuous_pv (P : Mat3 ℝ) : Continuous (fun p : Vec3 ℝ => Triplet.pv P p) := by
+  obtain ⟨⟨a0, a1, a2⟩, ⟨b0, b1, b2⟩, ⟨c0, c1, c2⟩⟩ := P
+  simp only [Triplet.pv, vecMat, inv3]
+  fun_prop
+
+/-- normalise-and-clip as a function of the un-normalised gains -/
+noncomputable def normClip (v : Vec3 ℝ) : Vec3 ℝ :=
+  (clip01 (v.1 / Real.sqrt (v.1 * v.1 + v.2.1 * v.2.1 + v.2.2 * v.2.2)),
+   clip01 (v.2.1 / Real.sqrt (v.1 * v.1 + v.2.1 * v.2.1 + v.2.2 * v.2.2)),
+   clip01 (v.2.2 / Real.sqrt (v.1 * v.1 + v.2.1 * v.2.1 + v.2.2 * v.2.2)))
+
+theorem gains_eq_normClip (P : Mat3 ℝ) (p : Vec3 ℝ) : Triplet.gains P p = normClip (Triplet.pv P p) := rfl
+
+theorem sqrt_ne_zero_of_ne {v : Vec3 ℝ} (hv : v ≠ (0, 0, 0)) :
+    Real.sqrt (v.1 * v.1 + v.2.1 * v.2.1 + v.2.2 * v.2.2) ≠ 0 := by
+  obtain ⟨x, y, z⟩ := v
+  simp only
+  have h0 : 0 ≤ x * x + y * y + z * z := by nlinarith [mul_self_nonneg x, mul_self_nonneg y, mul_self_nonneg z]
+  intro h
+  have hz := (Real.sqrt_eq_zero h0).mp h
+  apply hv
+  have hx : x * x = 0 := by nlinarith [mul_self_nonneg x, mul_self_nonneg y, mul_self_nonneg z]
+  have hy : y * y = 0 := by nlinarith [mul_self_nonneg x, mul_self_nonneg y, mul_self_nonneg z]
+  have hz' : z * z = 0 := by nlinarith [mul_self_nonneg x, mul_self_nonneg y, mul_self_nonneg z]
+  rw [mul_self_eq_zero.mp hx, mul_self_eq_zero.mp hy, mul_self_eq_zero.mp hz']
+
+theorem continuousOn_normClip : ContinuousOn normClip {v : Vec3 ℝ | v ≠ (0, 0, 0)} := by
+  have hn : ContinuousOn (fun v : Vec3 ℝ => Real.sqrt (v.1 * v.1 + v.2.1 * v.2.1 + v.2.2 * v.2.2))
+      {v : Vec3 ℝ | v ≠ (0, 0, 0)} := by
+    apply Continuous.continuousOn; fun_prop
+  have hne : ∀ v ∈ {v : Vec3 ℝ | v ≠ (0, 0, 0)},
+      Real.sqrt (v.1 * v.1 + v.2.1 * v.2.1 + v.2.2 * v.2.2) ≠ 0 := fun v hv => sqrt_ne_zero_of_ne hv
+  unfold normClip
+  refine ContinuousOn.prodMk ?_ (ContinuousOn.prodMk ?_ ?_)
+  · exact continuous_clip01.comp_continuousOn ((continuous_fst.continuousOn).div hn hne)
+  · exact continuous_clip01.comp_continuousOn (((continuous_fst.comp continuous_snd).continuousOn).div hn hne)
+  · exact continuous_clip01.comp_continuousOn (((continuous_snd.comp continuous_snd).continuousOn).div hn hne)
+
+/-- The gains of a triplet are a continuous function of the direction wherever the un-normalised gains are not
+    the zero vector (for an invertible `P`: for every `p ≠ 0`). -/
+theorem triplet_continuousOn (P : Mat3 ℝ) :
+    ContinuousOn (fun p : Vec3 ℝ => Triplet.gains P p) {p | Triplet.pv P p ≠ (0, 0, 0)} := by
+  have h : (fun p : Vec3 ℝ => Triplet.gains P p) = normClip ∘ (fun p => Triplet.pv P p) := by
+    funext p; exact gains_eq_normClip P p
+  rw [h]
+  exact continuousOn_normClip.comp (continuous_pv P).continuousOn (fun p hp => hp)
+
+/-- On its acceptance set the triplet's answer IS that continuous function (and outside it is "no result"). -/
+theorem triplet_handle_continuousOn (P : Mat3 ℝ) :
+    ∃ G : Vec3 ℝ → Vec3 ℝ, ContinuousOn G {p | Triplet.pv P p ≠ (0, 0, 0)} ∧
+      (∀ p, Triplet.accepts P p → Triplet.handle P p = some (G p)) ∧
+      (∀ p, ¬ Triplet.accepts P p → Triplet.handle P p = none) :=
+  ⟨fun p => Triplet.gains P p, triplet_continuousOn P,
+    fun p hp => by simp [Triplet.handle, hp], fun p hp => by simp [Triplet.handle, hp]⟩
+
+/-! ### stereo wrapper -/
+
+/-- the two outputs of `StereoPanDownmix.handle` as explicit real functions of the five inner gains -/
+noncomputable def stereoL (g : ℝ × ℝ × ℝ × ℝ × ℝ) : ℝ :=
+  let A := g.1 + Real.sqrt 3 / 3 * g.2.2.1 + Real.sqrt (1 / 2) * g.2.2.2.1
+  let B := g.2.1 + Real.sqrt 3 / 3 * g.2.2.1 + Real.sqrt (1 / 2) * g.2.2.2.2
+  A / Real.sqrt (A * A + (B * B + 0)) *
+    (1 / 2 : ℝ) ^ (1 / 2 * max g.2.2.2.1 g.2.2.2.2 / (max (max g.1 g.2.1) g.2.2.1 + max g.2.2.2.1 g.2.2.2.2))
+
+noncomputable def stereoR (g : ℝ × ℝ × ℝ × ℝ × ℝ) : ℝ :=
+  let A := g.1 + Real.sqrt 3 / 3 * g.2.2.1 + Real.sqrt (1 / 2) * g.2.2.2.1
+  let B := g.2.1 + Real.sqrt 3 / 3 * g.2.2.1 + Real.sqrt (1 / 2) * g.2.2.2.2
+  B / Real.sqrt (A * A + (B * B + 0)) *
+    (1 / 2 : ℝ) ^ (1 / 2 * max g.2.2.2.1 g.2.2.2.2 / (max (max g.1 g.2.1) g.2.2.1 + max g.2.2.2.1 g.2.2.2.2))
+
+theorem stereo_handle_eq (g0 g1 g2 g3 g4 : ℝ) :
+    StereoPanDownmix.handle (some [g0, g1, g2, g3, g4]) =
+      some [stereoL (g0, g1, g2, g3, g4), stereoR (g0, g1, g2, g3, g4)] := by
+  have hcast : (((1 / 2 : Rat)) : ℝ) = 1 / 2 := by push_cast; rfl
+  simp only [StereoPanDownmix.handle, stereo_matVec, normalise, norm, sumsq, List.map_cons, List.map_nil,
+    sqrt_real, zero_real, powHalf_real, max_real, ofRat_real, hcast, stereoL, stereoR]
+
+/-- the set of non-negative, not all zero inner gain vectors -/
+def stereoDomain : Set (ℝ × ℝ × ℝ × ℝ × ℝ) :=
+  {g | 0 ≤ g.1 ∧ 0 ≤ g.2.1 ∧ 0 ≤ g.2.2.1 ∧ 0 ≤ g.2.2.2.1 ∧ 0 ≤ g.2.2.2.2 ∧ g ≠ (0, 0, 0, 0, 0)}
+
+theorem stereo_aux {g : ℝ × ℝ × ℝ × ℝ × ℝ} (hg : g ∈ stereoDomain) :
+    let A := g.1 + Real.sqrt 3 / 3 * g.2.2.1 + Real.sqrt (1 / 2) * g.2.2.2.1
+    let B := g.2.1 + Real.sqrt 3 / 3 * g.2.2.1 + Real.sqrt (1 / 2) * g.2.2.2.2
+    Real.sqrt (A * A + (B * B + 0)) ≠ 0 ∧ max (max g.1 g.2.1) g.2.2.1 + max g.2.2.2.1 g.2.2.2.2 ≠ 0 := by
+  obtain ⟨g0, g1, g2, g3, g4⟩ := g
+  obtain ⟨h0, h1, h2, h3, h4, hne⟩ := hg
+  simp only at h0 h1 h2 h3 h4 ⊢
+  have hcpos : (0 : ℝ) < Real.sqrt 3 / 3 := div_pos (Real.sqrt_pos.mpr (by norm_num)) (by norm_num)
+  have hspos : (0 : ℝ) < Real.sqrt (1 / 2) := Real.sqrt_pos.mpr (by norm_num)
+  -- some gain is positive
+  have hsum : 0 < g0 + g1 + g2 + g3 + g4 := by
+    rcases (lt_or_eq_of_le (by linarith : 0 ≤ g0 + g1 + g2 + g3 + g4)) with h | h
+    · exact h
+    · exfalso; apply hne
+      have e0 : g0 = 0 := by linarith
+      have e1 : g1 = 0 := by linarith
+      have e2 : g2 = 0 := by linarith
+      have e3 : g3 = 0 := by linarith
+      have e4 : g4 = 0 := by linarith
+      rw [e0, e1, e2, e3, e4]
+  constructor
+  · set c := Real.sqrt 3 / 3
+    set s := Real.sqrt (1 / 2)
+    have hA : 0 ≤ g0 + c * g2 + s * g3 := by have := mul_nonneg hcpos.le h2; have := mul_nonneg hspos.le h3; linarith
+    have hB : 0 ≤ g1 + c * g2 + s * g4 := by have := mul_nonneg hcpos.le h2; have := mul_nonneg hspos.le h4; linarith
+    have hAB : 0 < (g0 + c * g2 + s * g3) + (g1 + c * g2 + s * g4) := by
+      by_contra hle
+      have hz : (g0 + c * g2 + s * g3) + (g1 + c * g2 + s * g4) = 0 := by linarith
+      have := mul_nonneg hcpos.le h2; have := mul_nonneg hspos.le h3; have := mul_nonneg hspos.le h4
+      have e0 : g0 = 0 := by linarith
+      have e1 : g1 = 0 := by linarith
+      have e2 : c * g2 = 0 := by linarith
+      have e3 : s * g3 = 0 := by linarith
+      have e4 : s * g4 = 0 := by linarith
+      have e2' : g2 = 0 := (mul_eq_zero.mp e2).resolve_left hcpos.ne'
+      have e3' : g3 = 0 := (mul_eq_zero.mp e3).resolve_left hspos.ne'
+      have e4' : g4 = 0 := (mul_eq_zero.mp e4).resolve_left hspos.ne'
+      rw [e0, e1, e2', e3', e4'] at hsum
+      norm_num at hsum
+    apply (Real.sqrt_pos.mpr _).ne'
+    have key : ∀ X Y : ℝ, 0 ≤ X → 0 ≤ Y → 0 < X + Y → 0 < X * X + (Y * Y + 0) := by
+      intro X Y hX hY hXY
+      rcases lt_or_eq_of_le hX with h | h
+      · have := mul_pos h h; nlinarith [mul_self_nonneg Y]
+      · have hY' : 0 < Y := by linarith
+        have := mul_pos hY' hY'; nlinarith [mul_self_nonneg X]
+    exact key _ _ hA hB hAB
+  · have hf : 0 ≤ max (max g0 g1) g2 := le_trans h2 (le_max_right _ _)
+    have hb : 0 ≤ max g3 g4 := le_trans h4 (le_max_right _ _)
+    intro hz
+    have hf0 : max (max g0 g1) g2 = 0 := by linarith
+    have hb0 : max g3 g4 = 0 := by linarith
+    have : g0 ≤ 0 := le_trans (le_trans (le_max_left _ _) (le_max_left _ _)) hf0.le
+    have : g1 ≤ 0 := le_trans (le_trans (le_max_right _ _) (le_max_left _ _)) hf0.le
+    have : g2 ≤ 0 := le_trans (le_max_right _ _) hf0.le
+    have : g3 ≤ 0 := le_trans (le_max_left _ _) hb0.le
+    have : g4 ≤ 0 := le_trans (le_max_right _ _) hb0.le
+    linarith
+
+/-- The stereo wrapper's two outputs are continuous functions of the (non-negative, non-zero) inner gains: the
+    level law `0.5^(0.5·back/(front+back))` depends continuously on the front/back balance. -/
+theorem stereo_continuousOn :
+    (∀ g0 g1 g2 g3 g4 : ℝ, StereoPanDownmix.handle (some [g0, g1, g2, g3, g4]) =
+      some [stereoL (g0, g1, g2, g3, g4), stereoR (g0, g1, g2, g3, g4)]) ∧
+    ContinuousOn stereoL stereoDomain ∧ ContinuousOn stereoR stereoDomain := by
+  refine ⟨stereo_handle_eq, ?_, ?_⟩
+  · unfold stereoL
+    refine ContinuousOn.mul (ContinuousOn.div (by fun_prop) (by fun_prop) (fun g hg => (stereo_aux hg).1)) ?_
+    refine (Real.continuous_const_rpow (by norm_num)).comp_continuousOn ?_
+    exact ContinuousOn.div (by fun_prop) (by fun_prop) (fun g hg => (stereo_aux hg).2)
+  · unfold stereoR
+    refine ContinuousOn.mul (ContinuousOn.div (by fun_prop) (by fun_prop) (fun g hg => (stereo_aux hg).1)) ?_
+    refine (Real.continuous_const_rpow (by norm_num)).comp_continuousOn ?_
+    exact ContinuousOn.div (by fun_prop) (by fun_prop) (fun g hg => (stereo_aux hg).2)
+
+/-! ### downmix wrapper -/
+
+theorem continuous_dot_ofFn {m : Nat} : ∀ (row : List ℝ), Continuous (fun v : Fin m → ℝ => dot row (List.ofFn v)) := by
+  induction m with
+  | zero => intro row; cases row <;> simp [dot] <;> exact continuous_const
+  | succ k ih =>
+    intro row
+    cases row with
+    | nil => simp only [dot]; exact continuous_const
+    | cons x xs =>
+      simp only [List.ofFn_succ, dot]
+      refine (continuous_const.mul (continuous_apply 0)).add ?_
+      exact (ih xs).comp (continuous_pi fun i => continuous_apply (Fin.succ i))
+
+theorem continuous_sumsq_matVec {m : Nat} : ∀ (D : List (List ℝ)),
+    Continuous (fun v : Fin m → ℝ => sumsq (matVec D (List.ofFn v)))
+  | [] => by simp only [matVec, List.map_nil, sumsq]; exact continuous_const
+  | row :: rest => by
+    have ih := continuous_sumsq_matVec (m := m) rest
+    simp only [matVec, List.map_cons, sumsq] at ih ⊢
+    exact ((continuous_dot_ofFn row).mul (continuous_dot_ofFn row)).add ih
+
+/-- PointSourcePannerDownmix: every output coordinate is a continuous function of the inner gain vector wherever
+    the downmixed vector is not zero. (Lists carry no topology: the inner vector is `List.ofFn v`, `v : Fin m → ℝ`.) -/
+theorem downmix_continuousOn {m : Nat} (D : List (List ℝ)) (i : Nat) :
+    (∀ v : Fin m → ℝ, PointSourcePannerDownmix.handle D (some (List.ofFn v)) =
+      some ((matVec D (List.ofFn v)).map (· / Real.sqrt (sumsq (matVec D (List.ofFn v)))))) ∧
+    ContinuousOn (fun v : Fin m → ℝ => dot (D.getD i []) (List.ofFn v) / Real.sqrt (sumsq (matVec D (List.ofFn v))))
+      {v | sumsq (matVec D (List.ofFn v)) ≠ 0} := by
+  refine ⟨fun v => by simp [PointSourcePannerDownmix.handle, normalise, norm], ?_⟩
+  refine ContinuousOn.div (continuous_dot_ofFn _).continuousOn (continuous_sumsq_matVec D).sqrt.continuousOn ?_
+  intro v hv
+  have h0 := sumsq_nonneg (matVec D (List.ofFn v))
+  exact (Real.sqrt_pos.mpr (lt_of_le_of_ne h0 (Ne.symm hv))).ne'
+
+/-! ### closedness of the acceptance sets -/
+
+/-- The acceptance set of a triplet, `{p | ε ≤ every component of p·P⁻¹}`, is closed — for every threshold `ε` (the
+    code's −1e-11, the idealised 0) and every matrix (for a singular `P` the model's `inv3` divides by 0 = 0 over ℝ and
+    `pv` is still linear).  A fortiori it is closed in the set of directions ≠ 0. -/
+theorem triplet_accept_isClosed (ε : ℝ) (P : Mat3 ℝ) : IsClosed {p : Vec3 ℝ | Triplet.acceptsE ε P p} := by
+  have hc := continuous_pv P
+  have h1 : IsClosed {p : Vec3 ℝ | ε ≤ (Triplet.pv P p).1} := isClosed_le continuous_const (continuous_fst.comp hc)
+  have h2 : IsClosed {p : Vec3 ℝ | ε ≤ (Triplet.pv P p).2.1} :=
+    isClosed_le continuous_const ((continuous_fst.comp continuous_snd).comp hc)
+  have h3 : IsClosed {p : Vec3 ℝ | ε ≤ (Triplet.pv P p).2.2} :=
+    isClosed_le continuous_const ((continuous_snd.comp continuous_snd).comp hc)
+  exact h1.inter (h2.inter h3)
+
+/-- ... in particular the set of directions for which the model's `Triplet.handle` returns a result -/
+theorem triplet_accept_isClosed_code (P : Mat3 ℝ) : IsClosed {p : Vec3 ℝ | Triplet.handle P p ≠ none} := by
+  have : {p : Vec3 ℝ | Triplet.handle P p ≠ none} = {p | Triplet.acceptsE tripletEps P p} := by
+    ext p
+    simp only [mem_ofPred_eq, Triplet.handle, acceptsE_eps]
+    by_cases h : Triplet.accepts P p <;> simp [h]
+  rw [this]; exact triplet_accept_isClosed _ P
+
+theorem isClosed_exists_mem {ι : Type} (A : ι → Set (Vec3 ℝ)) : ∀ l : List ι, (∀ r ∈ l, IsClosed (A r)) →
+    IsClosed {p | ∃ r ∈ l, p ∈ A r}
+  | [], _ => by simp
+  | a :: rest, h => by
+    have : {p | ∃ r ∈ a :: rest, p ∈ A r} = A a ∪ {p | ∃ r ∈ rest, p ∈ A r} := by
+      ext p; simp
+    rw [this]
+    exact (h a (by simp)).union (isClosed_exists_mem A rest (fun r hr => h r (List.mem_cons_of_mem _ hr)))
+
+/-- the acceptance set of a virtual n-gon (union of its inner triplets' acceptance sets) is closed -/
+theorem ngon_accept_isClosed (g : VirtualNgon ℝ) : IsClosed {p : Vec3 ℝ | g.handle p ≠ none} := by
+  have : {p : Vec3 ℝ | g.handle p ≠ none} = {p | ∃ r ∈ g.regions, p ∈ {p | Triplet.acceptsE tripletEps r.2 p}} := by
+    ext p
+    simp only [mem_ofPred_eq, ne_eq, ngon_handle_eq, firstAccept_eq_none, not_forall, List.mem_map]
+    constructor
+    · rintro ⟨x, ⟨r, hr, rfl⟩, hx⟩
+      refine ⟨r, hr, ?_⟩
+      by_contra hacc
+      apply hx
+      have : Triplet.handle r.2 p = none := by
+        rw [← handleE_eps]; simp [Triplet.handleE, hacc]
+      simp [VirtualNgon.candidate, this, remap]
+    · rintro ⟨r, hr, hacc⟩
+      refine ⟨_, ⟨r, hr, rfl⟩, ?_⟩
+      have : Triplet.handle r.2 p = some (Triplet.gains r.2 p) := by
+        rw [← handleE_eps]; simp [Triplet.handleE, hacc]
+      simp [VirtualNgon.candidate, this, remap]
+  rw [this]
+  exact isClosed_exists_mem _ _ (fun r _ => triplet_accept_isClosed _ r.2)
+
+
+/-! ### an all-triplet panner at acceptance slack 0 -/
+
+/-- output channel of row `a` of a triplet -/
+def chanAt (ch : List Nat) (a : Fin 3) : Nat := ch.getD a.1 0
+
+/-- a three-channel remap of gains supported on rows `i`, `j`, read at channel `c` -/
+theorem remap3_supported (n c c0 c1 c2 : Nat) (h01 : c0 ≠ c1) (h02 : c0 ≠ c2) (h12 : c1 ≠ c2) (g : Vec3 ℝ)
+    (i j : Fin 3) (hij : i ≠ j) (hk : ∀ k, k ≠ i → k ≠ j → coord g k = 0) :
+    (scatter (zeros n) [c0, c1, c2] (vecList g)).getD c 0 =
+      (if c = chanAt [c0, c1, c2] i ∧ c < n then coord g i else 0) +
+        (if c = chanAt [c0, c1, c2] j ∧ c < n then coord g j else 0) := by
+  obtain ⟨g0, g1, g2⟩ := g
+  simp only [vecList]
+  rw [scatter3_getD]
+  fin_cases i <;> fin_cases j <;> simp only [ne_eq, not_true_eq_false, Fin.zero_eta, Fin.mk_one, Fin.reduceFinMk] at hij
+  all_goals simp only [chanAt, coord, List.getD_cons_zero, List.getD_cons_succ]
+  · have h2 := hk 2 (by decide) (by decide); simp only [coord] at h2; subst h2
+    split_ifs <;> first | rfl | (simp; done) | omega
+  · have h2 := hk 1 (by decide) (by decide); simp only [coord] at h2; subst h2
+    split_ifs <;> first | rfl | (simp; done) | omega
+  · have h2 := hk 2 (by decide) (by decide); simp only [coord] at h2; subst h2
+    split_ifs <;> first | rfl | (simp; done) | omega
+  · have h2 := hk 0 (by decide) (by decide); simp only [coord] at h2; subst h2
+    split_ifs <;> first | rfl | (simp; done) | omega
+  · have h2 := hk 1 (by decide) (by decide); simp only [coord] at h2; subst h2
+    split_ifs <;> first | rfl | (simp; done) | omega
+  · have h2 := hk 0 (by decide) (by decide); simp only [coord] at h2; subst h2
+    split_ifs <;> first | rfl | (simp; done) | omega
+
+/-- a region of an all-triplet panner: (output channels, positions) -/
+abbrev TRegion := List Nat × Mat3 ℝ
+
+/-- three distinct output channels -/
+def TRegion.chOk (r : TRegion) : Prop := ∃ c0 c1 c2, r.1 = [c0, c1, c2] ∧ c0 ≠ c1 ∧ c0 ≠ c2 ∧ c1 ≠ c2
+
+/-- THE COMBINATORIAL HYPOTHESIS on a pair of triplets: their exact (slack 0) acceptance cones meet only in a shared
+    face.  Every common direction `p ≠ 0` lies on the arc `s·a + t·b` (`s, t ≥ 0`) between two loudspeakers `a`, `b`
+    of the first triplet such that `a` is also a loudspeaker of the second triplet, on the same output channel, and
+    either `t = 0` (the direction IS the shared loudspeaker `a`: shared vertex) or the same holds for `b` (shared
+    edge). -/
+def MeetInSharedFace (r r' : TRegion) : Prop :=
+  ∀ p : Vec3 ℝ, p ≠ (0, 0, 0) → Triplet.acceptsE 0 r.2 p → Triplet.acceptsE 0 r'.2 p →
+    ∃ (i j i' j' : Fin 3) (s t : ℝ), i ≠ j ∧ i' ≠ j' ∧ 0 ≤ s ∧ 0 ≤ t ∧
+      p = edgePoint s t (row r.2 i) (row r.2 j) ∧
+      row r.2 i = row r'.2 i' ∧ chanAt r.1 i = chanAt r'.1 i' ∧
+      (t = 0 ∨ (row r.2 j = row r'.2 j' ∧ chanAt r.1 j = chanAt r'.1 j'))
+
+theorem edgePoint_zero_right (s : ℝ) (a b b' : Vec3 ℝ) : edgePoint s 0 a b = edgePoint s 0 a b' := by
+  simp [edgePoint, add3, smul3]
+
+theorem handle_some_eq_gains {P : Mat3 ℝ} {p g : Vec3 ℝ} (h : Triplet.handle P p = some g) : g = Triplet.gains P p := by
+  unfold Triplet.handle at h
+  split at h
+  · exact (Option.some.inj h).symm
+  · simp at h
+
+/-- the remapped output of one triplet, read at channel `c` -/
+noncomputable def tripletOut (n : Nat) (r : TRegion) (p : Vec3 ℝ) : List ℝ :=
+  scatter (zeros n) r.1 (vecList (Triplet.gains r.2 p))
+
+/-- AGREEMENT, discharged from the combinatorial hypothesis by `triplet_on_edge`: two invertible triplets whose exact
+    cones meet only in a shared face give every output channel the same gain at every common direction. -/
+theorem shared_face_agreement (r r' : TRegion) (hd : det3 r.2 ≠ 0) (hd' : det3 r'.2 ≠ 0) (hch : r.chOk)
+    (hch' : r'.chOk) (h : MeetInSharedFace r r') (n c : Nat) (p : Vec3 ℝ) (hp : p ≠ (0, 0, 0))
+    (ha : Triplet.acceptsE 0 r.2 p) (ha' : Triplet.acceptsE 0 r'.2 p) :
+    (tripletOut n r p).getD c 0 = (tripletOut n r' p).getD c 0 := by
+  obtain ⟨i, j, i', j', s, t, hij, hij', hs, ht, hpe, hri, hci, hj⟩ := h p hp ha ha'
+  have hne : s * s + t * t ≠ 0 := by
+    intro h0
+    have hs0 : s = 0 := by nlinarith [mul_self_nonneg s, mul_self_nonneg t]
+    have ht0 : t = 0 := by nlinarith [mul_self_nonneg s, mul_self_nonneg t]
+    apply hp; rw [hpe, hs0, ht0]; simp [edgePoint, add3, smul3]
+  obtain ⟨g, hg, gi, gj, gk⟩ := triplet_on_edge r.2 hd i j hij s t hs ht hne
+  have hpe' : p = edgePoint s t (row r'.2 i') (row r'.2 j') := by
+    rcases hj with rfl | ⟨hrj, _⟩
+    · rw [hpe, hri]; exact edgePoint_zero_right _ _ _ _
+    · rw [hpe, hri, hrj]
+  obtain ⟨g', hg', gi', gj', gk'⟩ := triplet_on_edge r'.2 hd' i' j' hij' s t hs ht hne
+  rw [← hpe] at hg
+  rw [← hpe'] at hg'
+  obtain ⟨c0, c1, c2, hc, h01, h02, h12⟩ := hch
+  obtain ⟨d0, d1, d2, hc', k01, k02, k12⟩ := hch'
+  unfold tripletOut
+  rw [← handle_some_eq_gains hg, ← handle_some_eq_gains hg', hc, hc',
+    remap3_supported n c c0 c1 c2 h01 h02 h12 g i j hij gk, remap3_supported n c d0 d1 d2 k01 k02 k12 g' i' j' hij' gk',
+    gi, gj, gi', gj', ← hc, ← hc', hci]
+  congr 1
+  rcases hj with rfl | ⟨_, hcj⟩
+  · simp
+  · rw [hcj]
+
+theorem tripletOut_length (n : Nat) (r : TRegion) (p : Vec3 ℝ) : (tripletOut n r p).length = n := by
+  simp [tripletOut, scatter_length, zeros]
+
+/-- the acceptance set of a triplet region at slack 0, without the origin -/
+def TRegion.cone (r : TRegion) : Set (Vec3 ℝ) := {p | Triplet.acceptsE 0 r.2 p} ∩ {p | p ≠ (0, 0, 0)}
+
+/-- every output channel of an invertible triplet is continuous in the direction away from the origin -/
+theorem tripletOut_continuousOn_ne (n c : Nat) (r : TRegion) (hd : det3 r.2 ≠ 0) :
+    ContinuousOn (fun p => (tripletOut n r p).getD c 0) {p | p ≠ (0, 0, 0)} := by
+  have h1 : ContinuousOn (fun p : Vec3 ℝ => Triplet.gains r.2 p) {p | p ≠ (0, 0, 0)} :=
+    (triplet_continuousOn r.2).mono (fun p hp => pv_ne_zero r.2 hd p hp)
+  exact (continuous_remap3 r.1 n c).comp_continuousOn h1
+
+theorem tripletOut_continuousOn (n c : Nat) (r : TRegion) (hd : det3 r.2 ≠ 0) :
+    ContinuousOn (fun p => (tripletOut n r p).getD c 0) r.cone :=
+  (tripletOut_continuousOn_ne n c r hd).mono (fun _ hp => hp.2)
+
+/-- IDEALISED (acceptance slack 0 instead of the code's −1e-11) and for triplet regions only.
+    A panner whose regions are invertible triplets with three distinct output channels each, any two of which meet
+    only in a shared face: every output channel's gain is a continuous function of the direction on the union of the
+    cones (origin removed), and there the panner's answer is the answer of ANY triplet containing the direction.
+    Missing for the property: (1) the code's slack −1e-11 makes neighbouring acceptance sets overlap in slivers on
+    which the answers differ by O(1e-11) (`triplet_sliver_bound`), so the code's function is continuous only up to
+    jumps of that size; (2) quad and n-gon regions; (3) that the cones cover the sphere (C05). -/
+theorem panner_continuousOn_triplets_partial (regions : List TRegion) (n : Nat)
+    (hdet : ∀ r ∈ regions, det3 r.2 ≠ 0) (hch : ∀ r ∈ regions, r.chOk)
+    (hface : ∀ r ∈ regions, ∀ r' ∈ regions, r ≠ r' → MeetInSharedFace r r') :
+    (∀ c, ContinuousOn (fun p => ((tripletPannerE 0 regions n p).map (·.getD c 0)).getD 0)
+      {p | ∃ r ∈ regions, p ∈ r.cone}) ∧
+    (∀ r ∈ regions, ∀ p ∈ r.cone, tripletPannerE 0 regions n p = some (tripletOut n r p)) ∧
+    (∀ p, p ≠ (0, 0, 0) → (¬ ∃ r ∈ regions, p ∈ r.cone) → tripletPannerE 0 regions n p = none) := by
+  -- the candidate list of the panner at p ≠ 0, per output coordinate, is the abstract candidate list
+  have hagree : ∀ r ∈ regions, ∀ r' ∈ regions, ∀ p, p ∈ r.cone → p ∈ r'.cone → ∀ c,
+      (tripletOut n r p).getD c 0 = (tripletOut n r' p).getD c 0 := by
+    intro r hr r' hr' p hp hp' c
+    by_cases e : r = r'
+    · rw [e]
+    · exact shared_face_agreement r r' (hdet r hr) (hdet r' hr') (hch r hr) (hch r' hr') (hface r hr r' hr' e) n c p
+        hp.2 hp.1 hp'.1
+  have hcand : ∀ p, p ≠ (0, 0, 0) → ∀ (f : List ℝ → ℝ) (l : List TRegion),
+      (l.map fun r => remap r.1 n ((Triplet.handleE 0 r.2 p).map vecList)).map (Option.map f) =
+        candidates (l.map fun r => (r.cone, fun q => f (tripletOut n r q))) p := by
+    intro p hp f l
+    simp only [candidates, List.map_map]
+    apply List.map_congr_left
+    intro r _
+    by_cases hacc : Triplet.acceptsE 0 r.2 p
+    · have : p ∈ r.cone := ⟨hacc, hp⟩
+      simp [Triplet.handleE, hacc, remap, this, tripletOut]
+    · have : p ∉ r.cone := fun h => hacc h.1
+      simp [Triplet.handleE, hacc, remap, this]
+  have hU : ∀ f : List ℝ → ℝ, accUnion (regions.map fun r => (r.cone, fun q => f (tripletOut n r q))) =
+      {p | ∃ r ∈ regions, p ∈ r.cone} := by
+    intro f; ext p; simp [accUnion]
+  refine ⟨fun c => ?_, ?_, ?_⟩
+  · set rs : List (Set (Vec3 ℝ) × (Vec3 ℝ → ℝ)) := regions.map fun r => (r.cone, fun q => (tripletOut n r q).getD c 0)
+      with hrs
+    have main := firstAccept_continuousOn_aux {p : Vec3 ℝ | p ≠ (0, 0, 0)} rs 0
+      (by
+        intro x hx
+        obtain ⟨r, _, rfl⟩ := List.mem_map.mp hx
+        exact ⟨_, triplet_accept_isClosed 0 r.2, rfl⟩)
+      (by
+        intro x hx
+        obtain ⟨r, hr, rfl⟩ := List.mem_map.mp hx
+        exact tripletOut_continuousOn n c r (hdet r hr))
+      (by
+        intro x hx x' hx' p hp hp'
+        obtain ⟨r, hr, rfl⟩ := List.mem_map.mp hx
+        obtain ⟨r', hr', rfl⟩ := List.mem_map.mp hx'
+        exact hagree r hr r' hr' p hp hp' c)
+    rw [hrs, hU (fun l => l.getD c 0)] at main
+    refine main.1.congr ?_
+    intro p hp
+    obtain ⟨r, _, hpr⟩ := hp
+    simp only [tripletPannerE, firstAccept_map, hcand p hpr.2 (fun l => l.getD c 0) regions]
+  · intro r hr p hp
+    have hsome : ∀ c, (tripletPannerE 0 regions n p).map (·.getD c 0) = some ((tripletOut n r p).getD c 0) := by
+      intro c
+      simp only [tripletPannerE, firstAccept_map, hcand p hp.2 (fun l => l.getD c 0) regions]
+      exact firstAccept_eq_of_agree _ p _ ⟨_, List.mem_map.mpr ⟨r, hr, rfl⟩, hp⟩ (by
+        intro x hx hpx
+        obtain ⟨r', hr', rfl⟩ := List.mem_map.mp hx
+        exact hagree r' hr' r hr p hpx hp c)
+    cases hres : tripletPannerE 0 regions n p with
+    | none => have := hsome 0; rw [hres] at this; simp at this
+    | some out =>
+      congr 1
+      have hmem := firstAccept_mem hres
+      obtain ⟨r', hr', he⟩ := List.mem_map.mp hmem
+      have hlen : out.length = n := by
+        cases hh : Triplet.handleE 0 r'.2 p with
+        | none => rw [hh] at he; simp [remap] at he
+        | some g =>
+          rw [hh] at he
+          simp only [remap, Option.map_some, Option.some.injEq] at he
+          rw [← he]; simp [scatter_length, zeros]
+      apply list_ext_getD (by rw [hlen, tripletOut_length])
+      intro c
+      have := hsome c
+      rw [hres] at this
+      simpa using this
+  · intro p hp hnone
+    unfold tripletPannerE
+    rw [firstAccept_eq_none]
+    intro x hx
+    obtain ⟨r, hr, rfl⟩ := List.mem_map.mp hx
+    have : ¬ Triplet.acceptsE 0 r.2 p := fun h => hnone ⟨r, hr, h, hp⟩
+    simp [Triplet.handleE, this, remap]
 
 
 end Earverif.PointSource
